@@ -226,3 +226,15 @@ reg("C07", "E2-history-bfs",
     "property. Base-class oids_exist is not an integrity check. Checkout of an already loaded listing does not "
     "need the stored directory object.",
     "DESIGN.md §4 C07")
+
+reg("C17", "E2-history-bfs",
+    "exhaustive enumeration of access-operation sequences on a lazily loading index vs a reference-built explicit twin, both backends",
+    "Index with files, an explicit directory and unloaded directory objects at depth 1 and 2 vs its explicit twin "
+    "built by the reference model; every sequence of length <= 2 over 112 queries (quick; thorough adds every "
+    "(t1, t2, q) with t1, t2 from 20 load-triggering queries): get, info, ls, iteritems deep/shallow, hash-only "
+    "diff against the twin in both orders, view iteration / ls under 7 prefix-closed filters, fs adaptor "
+    "ls/info/find/cat, load twice - on the pygtrie and the SQLite backend: ~2.7*10^4 sequences. Each answer on "
+    "the lazy index == the twin's, whatever loading earlier queries triggered; view iteration == {k | filter(k)}; "
+    "fs adaptor bytes == generated contents; diff against the twin is empty.",
+    "Raw-trie views (__iter__, len, has_node, longest_prefix) are not claimed; loaded flag not compared.",
+    "DESIGN.md §4 C17")
